@@ -368,6 +368,12 @@ func init() {
 			ef := NewEffects(tb)
 			ruleVerdictPairing(c, w, tb, ef, "R13.1")
 			ruleNoDisclosure(c, w, "R13.2")
+			if w.Cfg.Name == CfgNative.Name {
+				runControl(c, "R13.1", []string{"ControlBadVerdict|"}, func(sink *Check, cw *World) {
+					ctb := NewTB(cw)
+					ruleVerdictPairing(sink, cw, ctb, NewEffects(ctb), "R13.1")
+				})
+			}
 			c.Floor("R13.1", 12)
 			c.Floor("R13.2", 30)
 		},
